@@ -1,8 +1,10 @@
 (* C05 — the iterator is total: no panic, no hang, fused, on arbitrary bytes.  Statements only.
-   Proved: panic freedom, the fused property, how I/O errors enter, recovery only moves forward and fails only with EOF.
-   NOT proved (covered by the correspondence runs under catch_unwind with a call bound): that the model's recursion budget
-   is never exhausted (termination of every loop) and the linear bound on the number of items. *)
-From Ebml Require Import Base Tools Spec Reader Pure Proofs.Tactics Proofs.BytesProofs Proofs.DecodersProofs Proofs.ReaderIO Proofs.Refine Proofs.PureProofs Proofs.NoPanic.
+   Proved: panic freedom, the fused property, how I/O errors enter, recovery only moves forward and fails only with EOF;
+   termination of every loop: the model's recursion budget (read_next/buffer_master recursion, the try_recover loop) is never
+   exhausted on any byte stream, and a full drain ends within the model's call bound with a linear bound on the number of
+   items (the call bound needs the specification's declared paths to be shorter than 2 * |input| + 64; a deeper specification
+   exceeds it: C05_deep_spec_exceeds_call_bound — a statement about the model's bound, the drain still ends: C05_drain_length). *)
+From Ebml Require Import Base Tools Spec Reader Pure Proofs.Tactics Proofs.BytesProofs Proofs.DecodersProofs Proofs.ReaderIO Proofs.Refine Proofs.PureProofs Proofs.NoPanic Proofs.Termination.
 
 (* no call panics: for every specification whose named parents are masters (what Props/C18.v proves of every derived
    specification), every configuration (tolerances, buffered set, size limit, EOF closing), every byte stream and every
@@ -50,3 +52,59 @@ Proof.
     destruct (N.eqb_spec 16641 id) as [<-|]; vm_compute; discriminate.
   - vm_compute. reflexivity.
 Qed.
+
+(* ------------------------------------------------------------------ no hang *)
+(* the recursion budget the model runs with (4 * |input| + 64, standing for the unbounded recursion of read_next/buffer_master
+   and the plain loop of try_recover) is never exhausted: for every specification, configuration (buffered masters included),
+   byte stream and interleaving of next()/try_recover(), no call reports fuel exhaustion *)
+Theorem C05_never_out_of_fuel : forall c input ops, wf_bytes input ->
+  Forall (fun o => o <> bad_out BFuel) (p_run c input ops).
+Proof. exact run_never_out_of_fuel. Qed.
+
+(* ... and for the buffered machine with any capacity and any chunking of the reads *)
+Theorem C05_never_out_of_fuel_buffered : forall c cap0 script input ops, wf_bytes input -> calm script ->
+  Forall (fun o => o <> bad_out BFuel) (run_reader c cap0 script input ops).
+Proof. exact buffered_run_never_out_of_fuel. Qed.
+
+(* a drain (and every other run) stays within the model's bound of 4 * |input| + 64 calls per drain, when the hierarchy is not
+   checked or no declared path has more than 63 parts ([slack c] is 0 resp. the longest declared path) *)
+Theorem C05_drain_within_limit : forall c input ops, wf_bytes input -> (slack c < 2 * length input + 64)%nat ->
+  ~ In OLimit (p_run c input ops).
+Proof. exact drain_within_limit. Qed.
+Theorem C05_drain_within_limit_paths : forall c input ops, wf_bytes input ->
+  (forall e, In e (c_sp c) -> (length (e_path e) <= 63)%nat) -> ~ In OLimit (p_run c input ops).
+Proof. exact drain_within_limit_paths. Qed.
+Theorem C05_drain_within_limit_lenient : forall c input ops, wf_bytes input -> c_allow_hier c = true ->
+  ~ In OLimit (p_run c input ops).
+Proof. exact drain_within_limit_lenient. Qed.
+Theorem C05_drain_within_limit_buffered : forall c cap0 script input ops, wf_bytes input -> calm script ->
+  (slack c < 2 * length input + 64)%nat -> ~ In OLimit (run_reader c cap0 script input ops).
+Proof. exact buffered_drain_within_limit. Qed.
+
+(* the linear bound on the number of items: whatever the call bound, a drain yields at most 2 * |input| + (longest declared
+   path) + 1 outputs *)
+Theorem C05_drain_length : forall c input limit, wf_bytes input ->
+  (length (snd (p_run_all limit c (p_init input))) <= slack c + 2 * length input + 1)%nat.
+Proof. exact drain_length. Qed.
+
+(* the side conditions are needed.  (1) A specification nested 71 deep: the two-byte document consisting of the innermost
+   (empty) master makes the reader open the 70 implied parents, and closing them at the end of the input takes more calls
+   than the model's bound 4 * 2 + 64 allows (with 70 levels it fits). *)
+Fixpoint chain_spec (n : nat) (id : N) (path : list part) : spec :=
+  match n with
+  | O => []
+  | S k => {| e_id := id; e_ty := DMaster; e_path := path |} :: chain_spec k (id + 1) (path ++ [PId id])
+  end.
+Definition chain_cfg (n : nat) : cfg :=
+  {| c_sp := chain_spec n 129 []; c_allow_id := false; c_allow_hier := false; c_allow_over := false; c_max := None;
+     c_buffered := []; c_emit_eof := true |}.
+Example C05_deep_spec_exceeds_call_bound :
+  last (p_run (chain_cfg 71) [199; 128] [RAll]) ONone = OLimit /\ last (p_run (chain_cfg 70) [198; 128] [RAll]) OLimit = ONone.
+Proof. split; vm_compute; reflexivity. Qed.
+
+(* (2) a "byte" that is not a byte (256): its length marker is empty, a header of length 0 is read over and over *)
+Example C05_non_byte_hangs :
+  let c := {| c_sp := [ {| e_id := 0; e_ty := DMaster; e_path := [] |} ]; c_allow_id := false; c_allow_hier := false;
+              c_allow_over := false; c_max := None; c_buffered := [0]; c_emit_eof := true |} in
+  p_run c [256] [RNext] = [OFuel].
+Proof. vm_compute. reflexivity. Qed.
